@@ -108,6 +108,18 @@ CLAIMED = {
             "bit-exact), `paperseq` (dates on which the real shadow copy was stepped vs clockDates over the real call sequence with all its repetitions); monitor: nested vs stand-alone "
             "index and the parent's universe column, bit for bit, over generated parents / funding schedules / bankrupt shadow copies.",
             "DESIGN 7 C09"),
+    "C16": ("~75 theorems in three fragments (Bt.C16). Detected: `flag_iff_trigger` - root.update sets the flag exactly when the total it computes is < 0 for a market-value root beyond TOL "
+            "(`nonneg_never_flags`, `fi_never_flags`, `negative_flags`), every public operation, every finite sequence of them and the whole Backtest loop keep every sub-strategy flag, every "
+            "fixed_income field and the tree shape (`run_preserves_sub_flags`, `btLoop_sub_flags`), the root flag is monotone and changes only inside an executed root update whose trigger held "
+            "(`btLoop_flag_iff`, trace form; Lean witness that a refreshing read on a stale tree can be that update). Clean: `bankrupt_flat` - after the liquidating update every security of the "
+            "whole tree, any depth, is flat and the position row of the date records 0 (hypotheses forced by the proof and documented: no zero-marked open position, no dust position/weight; "
+            "Lean witnesses that a zero-priced position and a dust weight do survive), `flatten_flat`, positions elsewhere untouched. Terminal: `bankrupt_no_run` / `bankrupt_run_irrelevant` - "
+            "once flagged the loop never applies the algos, `bankrupt_terminal` - positions stay 0, every strategy's cash and the root value are constant and recorded as such on every later date; "
+            "`terminal_after_liquidation_next` - cash changes at most once more, by the carry parked on the bankruptcy date; glue `bankruptcy_detected_clean_terminal`. Lean witnesses of two TOL corners "
+            "(value not rewritten within TOL on the bankruptcy date; zero-base return on the next date). Correspondence: step protocol on leveraged histories and on market-value roots holding "
+            "coupon-paying securities, run-steps and btday on leveraged programs (run / no-run decision per day, bit-exact). Monitors: flag vs an independently recomputed total on every update, "
+            "positions / value / cash after the bankruptcy date, spy algo call log, sub-strategies and FI roots never flagged.",
+            "DESIGN 7 C16"),
 }
 # pid -> reason it is not claimed (yet)
 NOT_YET = {}
